@@ -234,15 +234,15 @@ def row(env, flip0, flip1, order, left):
 
 
 # ------------------------------------------------------------------------------------------------ O3 solve
-def solve(env, topo):
+def solve(env, topo, cell_order=None):
     import forsys as fs
-    spec = catalogue(topo, n_spoke=4, bulge=0.12) if topo == "T3+pendant" else catalogue(topo, n_spoke=4, n_border=2, bulge=0.12)
+    spec = catalogue(topo, n_spoke=4, bulge=0.12) if topo.startswith("T3+") else catalogue(topo, n_spoke=4, n_border=2, bulge=0.12)
     internal = spec.internal_lines()
     runs = {}
     Ts = {}
     alpha, beta = env.real("alpha"), env.real("beta")
     for tag in ("a", "b", "c"):
-        b = tissue.build(spec, fs)
+        b = tissue.build(spec, fs, cell_order=cell_order)
         fr = fs.frames.Frame(0, b.vertices, b.edges, b.cells, time=0)
         F = fs.ForSys({0: fr})
         for be in fr.internal_big_edges:
@@ -334,4 +334,9 @@ def jobs(tier):
                                   "c04:row", dict(flip0=flip0, flip1=flip1, order=order, left=left), budget_s=600, weight=2))
     for topo in (("T3", "T3+pendant") if quick else ("T3", "K3", "K3-n0", "T3+pendant", "K4")):
         js.append(Job(f"solve-{topo}", "c04:solve", dict(topo=topo), budget_s=900, weight=4, opts=dict(cheap_forks=True)))
+    # several cells without internal interface, stored among the linked cells (re-insertion of the zero pressures)
+    for order in (["pend", "c0", "pend1", "c1", "c2"], ["c0", "pend1", "c1", "pend", "c2"]) if quick else \
+            (["pend", "c0", "pend1", "c1", "c2"], ["c0", "pend1", "c1", "pend", "c2"], ["c0", "c1", "c2", "pend", "pend1"], ["pend1", "pend", "c2", "c1", "c0"]):
+        js.append(Job(f"solve-T3+2pendants-order={'-'.join(order)}", "c04:solve", dict(topo="T3+2pendants", cell_order=order), budget_s=900,
+                      weight=4, opts=dict(cheap_forks=True)))
     return js
